@@ -1264,6 +1264,24 @@ func (ev *Env) builtinSpec(name string, argEs []Expr) (T, bool) {
 		vc.decl("pow2f", "(declare-fun pow2f (Int) Int)")
 		vc.decl("pow2f_ax", "(assert (and (= (pow2f 0) 1) (= (pow2f 1) 2) (= (pow2f 2) 4) (= (pow2f 3) 8) (= (pow2f 4) 16) (= (pow2f 8) 256) (= (pow2f 16) 65536) (forall ((k Int)) (! (=> (>= k 0) (and (> (pow2f k) 0) (= (pow2f (+ k 1)) (* 2 (pow2f k))))) :pattern ((pow2f k))))))")
 		return T{fmt.Sprintf("(pow2f %s)", arg(0).S), "Int", intT}, true
+	case "held":
+		// held(p.mu): the running goroutine holds the mutex stored in field mu of *p
+		sel, ok := argEs[0].(*ESel)
+		if !ok {
+			stale("held(x.f): expected a field selector")
+		}
+		base := ev.eval(sel.X)
+		pt, isPtr := unalias(base.GT).Underlying().(*types.Pointer)
+		if !isPtr {
+			stale("held(x.f): x must be a pointer to the struct holding the mutex")
+		}
+		obj, index, _ := types.LookupFieldOrMethod(pt.Elem(), true, ev.pkgFor(pt.Elem()), sel.Name)
+		if v, ok := obj.(*types.Var); !ok || !v.IsField() || len(index) != 1 {
+			stale("held: no field %s", sel.Name)
+		}
+		vc.decl("iptr", "(declare-fun iptr (Int Int) Int)")
+		vc.regHeap("G_held", ghostSorts["G_held"])
+		return T{fmt.Sprintf("(select %s (iptr %s %d))", vc.heapGet(ev.st, "G_held"), base.S, index[0]), "Bool", boolT}, true
 	case "lines":
 		return T{vc.ghostGet(ev.st, "G_lines", arg(0).S), "Int", intT}, true
 	case "written":
